@@ -2,7 +2,7 @@
 from .. import scriptprop
 
 ID = "C20"
-GEN = ['Math.lean']   # regenerated kernels this property's theorems are about (tie 4B)
+GEN = ["Math.lean", "MathShapes.lean", "UtilShapes.lean"]   # regenerated from the source on every run (tie 4B): kernels / call shapes / function shapes
 RULE = ("all values of the 8-bit types for every single-argument function, all 16-bit values for digits10/digitssign10 (thorough; quick: stride + boundaries), "
         "all pairs of 8-bit values on a boundary-dense grid for compare/less/min/max, triples for clamp, boundary-dense 32/64-bit samples (0, +-1, 10^k, 10^k+-1, extremes), "
         "sum/product with wrap-around; float64 Sum/Product on operands whose rounding/overflow depends on grouping (IEEE bit patterns across the pipe); Zero/ZeroOf/IsZero with an IsZero method/TernCast (incl. failing assertion)/IsNil (untyped nil, typed nil pointers and slices)/Ref/DerefZero; non-trivial = every script")
